@@ -296,6 +296,71 @@ static void default_cfg(void)
 	memset(period, 0, sizeof period);
 }
 
+/* ------------------------------------------------------------------ large-geometry event queue (bigq) */
+static fibre_eventq_t bq;
+static unsigned bq_msg, bq_next, bq_bad;
+static char bq_why[160];
+static int bigq_handler(fibre_t *f)
+{
+	static unsigned char *e;
+	PT_BEGIN_FIBRE(f);
+	for (;;) {
+		PT_WAIT_UNTIL(NULL != (e = fibre_eventq_receive(&bq)));
+		uint32_t a, z;
+		memcpy(&a, e, 4); memcpy(&z, e + bq_msg - 4, 4);
+		if ((a != bq_next || z != ~bq_next) && !bq_bad) {
+			bq_bad = 1;
+			snprintf(bq_why, sizeof bq_why, "event #%u arrived as first=%u last=~%u", bq_next, (unsigned)a, (unsigned)~z);
+		}
+		bq_next++;
+		fibre_eventq_release(&bq, e);
+	}
+	PT_END();
+}
+static const char *bigq(unsigned d, unsigned m, unsigned n, unsigned burst)
+{
+	static char res[256];
+	unsigned char *buf = malloc((size_t)d * m);
+	uint32_t now = 1000;
+	unsigned sent = 0;
+	memcpy(&kernel, kernel0, sizeof kernel);
+	memset(atomic_runq_buf, 0, sizeof atomic_runq_buf);
+	memset(buf, 0xEE, (size_t)d * m);
+	fibre_eventq_init(&bq, bigq_handler, buf, (size_t)d * m, m);
+	bq_msg = m; bq_next = 0; bq_bad = 0; bq_why[0] = 0;
+	alarm(20);
+	while (sent < n && !bq_bad) {
+		unsigned k = 1 + (sent * 7u + 3u) % burst;
+		for (unsigned i = 0; i < k && sent < n; i++) {
+			unsigned char *e = fibre_eventq_claim(&bq);
+			if (!e)
+				break;             /* full: let the handler run */
+			uint32_t a = sent, z = ~sent;
+			memset(e, 0x5A, m);
+			memcpy(e, &a, 4); memcpy(e + m - 4, &z, 4);
+			if (!fibre_eventq_send(&bq, e) && !bq_bad) { bq_bad = 1; snprintf(bq_why, sizeof bq_why, "send of event #%u refused", sent); }
+			sent++;
+		}
+		for (int pass = 0; pass < 80; pass++) {
+			unsigned before = bq_next;
+			fibre_scheduler_next(now++);
+			if (bq_next == before && fibre_eventq_empty(&bq) && pass > 1)
+				break;
+		}
+		if (bq_next != sent && !bq_bad) {
+			bq_bad = 1;
+			snprintf(bq_why, sizeof bq_why, "%u events sent, %u received after the scheduler went idle", sent, bq_next);
+		}
+	}
+	alarm(3);
+	if (bq_bad)
+		snprintf(res, sizeof res, "bigq FAIL depth=%u size=%u: %s", d, m, bq_why);
+	else
+		snprintf(res, sizeof res, "bigq ok %u", sent);
+	free(buf);
+	return res;
+}
+
 /* ------------------------------------------------------------------ parsing */
 static int parse_gap(const char *s, int *k, int *post)
 {
@@ -405,6 +470,15 @@ int main(void)
 		ncalls = 0;
 		if (!strcmp(op, "--")) { puts("--"); }
 		else if (!strcmp(op, "reset")) { default_cfg(); do_reset(); puts("ok"); }
+		else if (!strcmp(op, "bigq")) {
+			/* bigq <depth> <event size> <events> <burst>: an event queue of any permitted geometry (up to 32 x 65535 bytes), implementation
+			 * only.  Bursts of up to <burst> (<= 7) events are claimed, stamped in their first and last word, sent, then the scheduler runs
+			 * until idle; the handler checks that events arrive exactly once, in send order and intact. */
+			long long d = 0, m = 0, n = 0, b = 0;
+			char *t1 = strtok(NULL, " \n"), *t2 = strtok(NULL, " \n"), *t3 = strtok(NULL, " \n"), *t4 = strtok(NULL, " \n");
+			if (!t1 || !t2 || !t3 || !t4 || !parse_num(t1, 1, 32, &d) || !parse_num(t2, 8, 65535, &m) || !parse_num(t3, 1, 100000, &n) || !parse_num(t4, 1, 7, &b)) { puts("bad-op"); continue; }   /* at most 7 sends between passes: the 8-slot atomic run queue never refuses */
+			puts(bigq((unsigned)d, (unsigned)m, (unsigned)n, (unsigned)b));
+		}
 		else if (!strcmp(op, "cfg")) {
 			char *t = strtok(NULL, " \n");
 			long long d, v;
